@@ -33,6 +33,10 @@ type Canon struct {
 	rot     []*rotLoop
 	rotDone bool
 	owner   *FuncFacts // the facts this renderer belongs to (branch conditions for boolean values)
+	// closures: the enclosing function's renderer and the MakeClosure that binds the free variables
+	parentCanon *Canon
+	parentMC    *ssa.MakeClosure
+	parentDone  bool
 }
 
 // localName names an address-taken local by its type and ordinal among the
@@ -289,6 +293,9 @@ func (c *Canon) render(v ssa.Value, d int) string {
 					return c.localName(x)
 				}
 			case *ssa.FreeVar:
+				if t, ok := c.capturedValue(x); ok {
+					return t
+				}
 				return "‹" + x.Name() + "›"
 			}
 			return "*" + c.termD(v.X, d+1)
@@ -1158,4 +1165,59 @@ func addrOnlyRead(v ssa.Value, depth int) bool {
 		}
 	}
 	return true
+}
+
+// capturedValue: the value a captured variable holds, in the enclosing function's terms, when the
+// enclosing function stores into it exactly once and nobody writes it afterwards. A closure's free
+// variables are then not opaque names bound by position: `rollback := func() { f(a, b) }` with
+// a := x.p; b := x.q is f(↑x.p, ↑x.q), whatever the locals are called and in whatever order they
+// were declared.
+func (c *Canon) capturedValue(fv *ssa.FreeVar) (string, bool) {
+	if !c.parentDone {
+		c.parentDone = true
+		par := c.fn.Parent()
+		if par != nil && par.Blocks != nil {
+		search:
+			for _, b := range par.Blocks {
+				for _, in := range b.Instrs {
+					if mc, ok := in.(*ssa.MakeClosure); ok && mc.Fn == ssa.Value(c.fn) {
+						c.parentMC = mc
+						break search
+					}
+				}
+			}
+			if c.parentMC != nil {
+				c.parentCanon = c.p.facts(par, defaultRejectMode(par)).c
+				c.parentCanon.env = nil
+			}
+		}
+	}
+	if c.parentMC == nil || c.parentCanon == nil {
+		return "", false
+	}
+	idx := -1
+	for i, f := range c.fn.FreeVars {
+		if f == fv {
+			idx = i
+		}
+	}
+	if idx < 0 || idx >= len(c.parentMC.Bindings) {
+		return "", false
+	}
+	al, ok := c.parentMC.Bindings[idx].(*ssa.Alloc)
+	if !ok {
+		return "", false
+	}
+	if freeVarWritten(fv, 0) {
+		return "", false
+	}
+	vals, strict, ok := c.parentCanon.allocStores(al)
+	if !ok || !strict || len(vals) != 1 {
+		return "", false
+	}
+	t := c.parentCanon.term(vals[0])
+	if strings.Contains(t, "↺") || strings.Contains(t, "…") {
+		return "", false
+	}
+	return "↑" + t, true
 }
